@@ -535,9 +535,12 @@ func (bh *Header) RemoveReference(r *Reference) error {
 	}
 	bh.refs = append(bh.refs[:r.id], bh.refs[r.id+1:]...)
 	for i := range bh.refs[r.id:] {
-		bh.refs[i+int(r.id)].id--
+		ref := bh.refs[i+int(r.id)]
+		ref.id--
+		bh.seenRefs[ref.name] = ref.id
 	}
 	r.id = -1
+	r.owner = nil
 	delete(bh.seenRefs, r.name)
 	return nil
 }
